@@ -208,7 +208,10 @@ def build(inp) -> Case:
                            (sn, (("threshold_at_fpr", 0.3),))):
             for nm_, a_ in calls_:
                 common.call(getattr(o_, nm_), *(() if a_ is None else (a_,)))
-    for metric in gen.METRICS:
+    # (scores next to the float maximum: threshold SETTING is claimed for scores of moderate magnitude (C02, C06) - there the
+    # textbook interpolation lo + w*(hi - lo) is as good as (1-w)*lo + w*hi - so only the counting clauses (matrices under swap /
+    # negation / contraction, AUC) are judged on them, not the returned thresholds)
+    for metric in ([] if inp.get("fmax") else gen.METRICS):
         arr_empty = (len(pos) == 0 and metric in ("tpr", "fnr")) or (len(neg) == 0 and metric in ("tnr", "fpr")) \
             or (len(pos) + len(neg) == 0)
         for r, meth in [(r_, "linear") for r_ in inp["rs"]] + [(r_, m_) for r_ in inp["rs"] if (r_ * 64) != round(r_ * 64) for m_ in ("lower", "higher")][:6]:
@@ -236,7 +239,7 @@ def build(inp) -> Case:
     # (all scores, k evenly spaced points, or the caller's points mapped along) is mapped by the same map, the metric
     # values on it are unchanged, so every returned solution is mapped too
     tam_skipped = 0
-    if pos and neg and inp.get("tam"):
+    if pos and neg and inp.get("tam") and not inp.get("fmax"):
         tam = inp["tam"]
         mname, target, pts = tam["metric"], tam["target"], tam["points"]
 
@@ -277,7 +280,7 @@ def build(inp) -> Case:
         elif q0[0] == "ok":
             tam_skipped = 1
     if pos and neg:
-        e0, e1, e2 = common.call(s.eer), common.call(sn.eer), common.call(sa.eer)
+        e0, e1, e2 = (common.call(s.eer), common.call(sn.eer), common.call(sa.eer)) if not inp.get("fmax") else (("ok", (0.0, 0.0)),) * 3
         if "exc" in (e0[0], e1[0], e2[0]):
             pre.append(Issue("PROPFAIL", "raises", f"eer raised: {e0[1:]} {e1[1:]} {e2[1:]}", "eer/raises"))
         else:
